@@ -64,6 +64,12 @@ func c12Run(c *ev.Ctx) {
 	r := c.R
 	sbv := []uint8{0, 2, 3}[r.Intn(3)]
 	nds := r.Weighted([]int{5, 3, 2}) + 1
+	// one case in thirty: a single chunked dataset whose last collection is left open at Close
+	// with exactly 24 / 8 free bytes (252 / 253 empty elements and one short one)
+	edgeAtClose := c.Index%30 == 11
+	if edgeAtClose {
+		nds = 1
+	}
 	kinds := []string{"vstr", "v[]i32", "v[]i64", "v[]u32", "v[]u64", "v[]f32", "v[]f64"}
 	unitOf := map[string]int{"vstr": 1, "v[]i32": 4, "v[]i64": 8, "v[]u32": 4, "v[]u64": 8, "v[]f32": 4, "v[]f64": 8}
 	// count profile: mostly small, sometimes many collections, rarely 10^4 elements
@@ -94,9 +100,14 @@ func c12Run(c *ev.Ctx) {
 		}
 		// one file in eight: long runs of empty elements (16-byte objects: 255 of them fill a
 		// collection to its last byte, the last object header ends exactly at the collection end)
-		emptyRun := r.Chance(1, 8)
+		emptyRun := r.Chance(1, 8) || edgeAtClose
+		closer := false // the run ends with one short element (254 elements: 8 bytes stay free)
 		if emptyRun {
-			count = []int{254, 255, 256, 300, 510, 511, 600}[r.Intn(7)]
+			count = []int{253, 254, 254, 255, 256, 300, 510, 511, 600}[r.Intn(9)]
+			closer = r.Chance(1, 3)
+			if edgeAtClose {
+				count, closer = 253+(c.Index/30)%2, true
+			}
 			tags["empty-run"] = true
 		}
 		ds := &c12DS{path: fmt.Sprintf("/v%d", d), kind: kind}
@@ -106,7 +117,13 @@ func c12Run(c *ev.Ctx) {
 			w := []int{10, 50, 25, 12, 2, 1}
 			if emptyRun {
 				w = []int{1, 0, 0, 0, 0, 0}
-				if r.Chance(1, 100) {
+				if r.Chance(1, 100) && !edgeAtClose {
+					w = []int{0, 1, 0, 0, 0, 0}
+				}
+				// a run that starts with one short element (what lies behind the collection in the file is
+				// the reference of element 0, which must not be an empty one to show damage): 253 / 254 elements leave the collection that
+				// is still open at Close with exactly 24 / 8 free bytes
+				if closer && i == 0 {
 					w = []int{0, 1, 0, 0, 0, 0}
 				}
 			}
@@ -131,6 +148,9 @@ func c12Run(c *ev.Ctx) {
 				}
 			}
 			n, tag := c12ElemLen(r, cl, unit)
+			if emptyRun && closer && i == 0 {
+				n, tag = max(1, r.Range(1, 8)/unit), "closer"
+			}
 			tags[tag] = true
 			var raw []byte
 			if kind == "vstr" {
@@ -192,7 +212,7 @@ func c12Run(c *ev.Ctx) {
 		if count%2 == 0 && count >= 4 && r.Chance(1, 3) {
 			ds.dims = []uint64{uint64(count / 2), 2}
 		}
-		if r.Chance(2, 5) {
+		if r.Chance(2, 5) || edgeAtClose {
 			ds.chunk = make([]uint64, len(ds.dims))
 			for i := range ds.chunk {
 				ds.chunk[i] = uint64(r.Range(1, int(min(ds.dims[i], 64))))
@@ -518,7 +538,7 @@ func c12ErrClass(s string) string {
 var C12 = &ev.Property{
 	ID:    "C12",
 	Level: "exploration",
-	Rule: "each case writes 1-3 variable-length datasets (vlen string and vlen sequences of int32/int64/uint32/uint64/float32/float64; contiguous or chunked; rank 1-2; superblock 0/2/3; writes interleaved between datasets or not) with element lists of 1-12, 50-600, 1000-3000 or 10^4 elements whose byte lengths are drawn from {0, 1-24, the 4031..4081 collection-capacity edge, 200-1500, >64 KiB, >150 KiB; one file in sixteen with an element of 1-1.7 MiB followed by small ones}, strings with arbitrary bytes, embedded/trailing NUL and multi-byte UTF-8. After Close and reopen: the library must report a variable-length datatype and the written shape, any value its readers return must equal the written one (an error is accepted); the independent decoder must find class 9 with the written base type, follow every element reference into the global heap and return exactly the written bytes; every collection is also read with the library's own collection reader, which must list the same objects with the same bytes; one file in eight holds runs of 254-600 empty elements (collections filled to the last byte); every issue the decoder raises on a GCOL collection (size field, object size, alignment, free-space object, duplicate index, extent overlap) or on the element reference layout is a violation. " +
+	Rule: "each case writes 1-3 variable-length datasets (vlen string and vlen sequences of int32/int64/uint32/uint64/float32/float64; contiguous or chunked; rank 1-2; superblock 0/2/3; writes interleaved between datasets or not) with element lists of 1-12, 50-600, 1000-3000 or 10^4 elements whose byte lengths are drawn from {0, 1-24, the 4031..4081 collection-capacity edge, 200-1500, >64 KiB, >150 KiB; one file in sixteen with an element of 1-1.7 MiB followed by small ones}, strings with arbitrary bytes, embedded/trailing NUL and multi-byte UTF-8. After Close and reopen: the library must report a variable-length datatype and the written shape, any value its readers return must equal the written one (an error is accepted); the independent decoder must find class 9 with the written base type, follow every element reference into the global heap and return exactly the written bytes; every collection is also read with the library's own collection reader, which must list the same objects with the same bytes; one file in eight holds runs of 252-600 empty elements (collections filled to the last byte, or left with exactly 8 / 16 / 24 free bytes at Close: directed in one case of thirty); every issue the decoder raises on a GCOL collection (size field, object size, alignment, free-space object, duplicate index, extent overlap) or on the element reference layout is a violation. " +
 		"non-trivial: every case; distinct = (superblock, kinds+layouts, length classes, count profile, interleaving).",
 	Assumptions: []string{"the independent decoder (validated on the reference corpus' vlen files against h5dump output) stands in for the format specification"},
 	Cases: func(tier string) int {
